@@ -44,6 +44,7 @@ func (a *allocator) GetPage(requestOrderID uint32) []byte {
 
 	// put result in used pages
 	a.used[requestOrderID] = append(a.used[requestOrderID], result)
+	verifAL(a, 'G', requestOrderID, result)
 
 	return result
 }
@@ -53,6 +54,7 @@ func (a *allocator) ReleasePages(requestOrderID uint32) {
 	a.Lock()
 	defer a.Unlock()
 
+	verifAL(a, 'L', requestOrderID, nil)
 	if used := a.used[requestOrderID]; len(used) > 0 {
 		a.available = append(a.available, used...)
 	}
@@ -65,6 +67,7 @@ func (a *allocator) Free() {
 	a.Lock()
 	defer a.Unlock()
 
+	verifAL(a, 'X', 0, nil)
 	a.available = nil
 	a.used = make(map[uint32][][]byte)
 }
